@@ -202,6 +202,21 @@ def run(chk, repo, tier):
 
     unit_label_order_rule(chk, repo, 'C14-c')
     rescaled_copy_rule(chk, repo, 'C14-c')
+    # the Vega zero point a magnitude-scaled blackbody is sampled with is looked up for the wavelength unit of *this* request
+    # (a value kept from construction is in the construction's unit)
+    if repo.has_func('radiometry.Blackbody.sample_vegamag'):
+        fsv = repo.func('radiometry.Blackbody.sample_vegamag')
+        _, svp, _ = analyse(repo, fsv)
+        okz, detz = bool(returns(svp)), ''
+        for p in returns(svp):
+            vf = [a for a in nf.value_atoms(p.ret) if is_app(a, 'call:radiometry.vegaflux')]
+            good = bool(vf) and all({k.items[0].value: k.items[1] for k in a[2]}.get('waveunit') == S('waveunit') for a in vf)
+            if not good:
+                okz = False
+                stale = [a for a in nf.value_atoms(p.ret) if a[0] == 'attr' and a[1] == ('sym', 'self') and a[2] not in ('mag', 'band', 'temp')]
+                detz = ('the zero point is ' + (f'read from self.{stale[0][2]}' if stale else 'not looked up') +
+                        ' instead of vegaflux(self.band, waveunit)') if not vf else 'vegaflux is not asked with the requested waveunit'
+        chk.ob('C14-g', 'D-flow', fsv.key, 'Vega zero point looked up in the requested wavelength unit', okz, detz, fsv.loc())
     from .c15 import integrate_selection_rule
     integrate_selection_rule(chk, repo, 'C14-c')
     fto_ = repo.func('radiometry.Spectrum.to')
